@@ -1,4 +1,5 @@
 import ApolloModel.Proofs.ParserLossless
+import ApolloModel.Proofs.ParserTermination2
 /-
 C01 — Parsing never panics, hangs or overflows the stack.
 
@@ -39,6 +40,78 @@ theorem grammar_balanced {α : Type} (m : PI α) (s s' : PState) (a : α) (hi : 
     The full statement is kept here; the correspondence check never observes either outcome. -/
 def parse_terminates_statement : Prop :=
   ∀ (e : Entry) (tl : Option Nat) (rl : Nat) (src : Parse.Str) (w : Abort), (parse e tl rl src).outcome ≠ .abort w
+
+/-! ## Termination of the parser model (growth of `parse_terminates_statement`)
+
+Two measures on the token-stream part of the state (Proofs/ParserTermination.lean): `Mm` = how many
+tokens can still be consumed, `Phi` = where the first unconsumed token starts.  `Term m s Q`: `m` run
+from `s` does not abort (neither `fuel` nor `stuck`) and, if it ends normally, no measure went
+backwards, the current token was kept or progress was made (`Keep`), and `Q` holds. -/
+
+/-- Every token-plumbing primitive of parser/mod.rs terminates and never un-consumes input;
+    `bump`, `eat` and `err_and_pop` make strict progress in both measures whenever there is a current
+    token (otherwise the input is exhausted). In particular the `skip_ignored` loop never runs out of
+    its fuel. -/
+theorem primitives_progress (kind : Rowan.SK) (s : PState) (hw : W s) :
+    Run skipIgnored s (fun _ c l => Skipped c l) ∧
+    Run (bump kind) s (fun _ c l => Consumed s c l ∧ Skipped c l) ∧
+    Run (eat kind) s (fun _ c l => c = none ∧ Consumed s c l) ∧
+    Run errAndPop s (fun _ c l => Consumed s c l) ∧
+    Run peekToken s (fun a c l => a = c ∧ Looked s c l) :=
+  ⟨skipIgnored_run s hw, bump_run kind s hw, eat_run kind s hw, errAndPop_run s hw, peekToken_run' s hw⟩
+
+/-- progress changes the current token: with a current token, `Phi` is determined by it, so a body
+    that made strict progress cannot trip the `debug_assert!(before != self.current_token)` -/
+theorem progress_changes_current (s s' : PState) (h : Strict s s') (hs : s.current.isSome = true) :
+    s'.current ≠ s.current := strict_current_ne h hs
+
+/-- `STUCK`-FREEDOM AND LOOP FUEL, for every loop body: if the body of a `peek_while` terminates from
+    every state that has a current token and makes strict progress whenever it asks to continue, then
+    the loop never fails its progress assertion and never exhausts its fuel (`|src| + 3`). -/
+theorem peek_while_terminates (body : Kind → PI Bool) (s : PState) (hw : W s)
+    (hbody : ∀ kind s1, W s1 → Mm s1 ≤ Mm s → (∃ t, s1.current = some t ∧ t.kind = kind) →
+      Term (body kind) s1 (fun b c l => b = true → StrictT s1 c l)) :
+    Term (peekWhile body) s (fun _ _ _ => True) := peekWhile_term body s hw hbody
+
+/-- the same for `peek_while_kind` -/
+theorem peek_while_kind_terminates (expectK : Kind) (body : PI Unit) (s : PState) (hw : W s)
+    (hbody : ∀ s1, W s1 → Mm s1 ≤ Mm s → (∃ t, s1.current = some t ∧ t.kind = expectK) →
+      Term body s1 (fun _ c l => StrictT s1 c l)) :
+    Term (peekWhileKind expectK body) s (fun _ _ _ => True) := peekWhileKind_term expectK body s hw hbody
+
+/-- the node / recursion-limit / checkpoint combinators add no abort of their own -/
+theorem combinators_terminate {α : Type} (kind : Rowan.SK) (body onLimit : PI α) (s : PState) (hw : W s)
+    {Q : α → Option Tok → LexSt → Prop}
+    (hb : ∀ s1, W s1 → s1.current = s.current → s1.lx = s.lx → Term body s1 Q)
+    (hl : ∀ s1, W s1 → s1.current = s.current → s1.lx = s.lx → Term onLimit s1 Q) :
+    Term (withRec onLimit body) s Q ∧
+    ((∀ s1, W s1 → s1.current = s.current → s1.lx = s.lx → Term (skipIgnored >>= fun _ => body) s1 Q) →
+      Term (withNode kind body) s Q) :=
+  ⟨withRec_term onLimit body s hw hl hb, fun h => withNode_term kind body s hw h⟩
+
+/-- ty.rs: the type grammar (unbounded `[[[…]]]!` nesting, checkpoint/wrap for `!`) terminates whenever
+    the fuel exceeds the number of tokens left: each recursive call follows a consumed `[` -/
+theorem type_grammar_terminates (n : Nat) (s : PState) (hw : W s) (hn : Mm s + 1 ≤ n) :
+    Term (tyParse n) s (fun _ _ _ => True) := tyParse_term n s hw hn
+
+/-- building blocks every remaining loop body reduces to: `let _g = start_node(k); bump(k')` consumes
+    the current token, and `name()` consumes it when it is a Name (so `peek_while_kind(Name, …)` bodies
+    that start with `name` satisfy the hypothesis of `peek_while_kind_terminates`) -/
+theorem node_bump_and_name_consume (kind k : Rowan.SK) (s : PState) (hw : W s) :
+    Term (withNode kind (bump k)) s (fun _ c l => s.current.isSome = true → StrictT s c l) ∧
+    Term name s (fun _ c l => ∀ t, s.current = some t → t.kind = .name → StrictT s c l) :=
+  ⟨withNode_bump_term kind k s hw, name_term s hw⟩
+
+/-- PARTIAL of `parse_terminates_statement` — the entry point `Parser::parse_type`, for every input,
+    token limit and recursion limit: never out of fuel, never stuck.  Remaining obligations for the
+    other two entry points: a `Term` lemma per grammar function of value.rs, selection.rs/field.rs/
+    fragment.rs, and the definition parsers dispatched by document.rs — each is an instance of
+    `peek_while_terminates` / `peek_while_kind_terminates` once its loop bodies are shown to consume a
+    token under the loop guard (the guards are token kinds, and every body starts by bumping or by
+    `name`/`expect` on that kind), plus the depth bound `4·|src|+20 ≥ 4·Mm + rank` for the mutual
+    recursions value→list/object→value and selectionSet→selection→field→selectionSet. -/
+theorem parse_terminates_partial (tl : Option Nat) (rl : Nat) (src : Parse.Str) (w : Abort) :
+    (parse .type tl rl src).outcome ≠ .abort w := parse_type_terminates tl rl src w
 
 -- Regression witnesses for the repaired defects (evaluated by the kernel on the model)
 def isTree (r : PResult) : Bool := match r.outcome with | .tree _ => true | _ => false
